@@ -432,6 +432,10 @@ Arguments best_score_of {T}. Arguments best_flops {T}.
 Arguments e_id {T}. Arguments e_setting {T}. Arguments e_trial {T}.
 Arguments SCont {T}. Arguments SStop {T}. Arguments SCrash {T}.
 
+(* HyperOptimizer.parallel (setter): self.pre_dispatch = max(num_workers + 4, int(1.2 * num_workers))
+   (int(1.2 * n) = 12 n // 10 for every n below 10^5, checked in docs/C08.md) *)
+Definition pre_dispatch_of (nw : nat) : nat := Nat.max (nw + 4) (12 * nw / 10).
+
 (* ------------------------------------------------------------------ *)
 (* declarative companion used in statements and by the correspondence:
    index of the first strictly smallest score below +inf *)
